@@ -38,8 +38,12 @@ def run(run):
     run.rule = "one item per (configuration, dataset shape, flag); every feasible path checked structurally"
     run.bounds["kernel moves [S] (n, element)"] = kn
     run.pmap("bk.move_check", bk.move_check, kn)
-    items = sweep.make_items(run, cfgs, [chk_no_crash, "wellformed"], light=light, heavy=heavy)
-    run.pmap("sweep.run_item", sweep.run_item, items, chunksize=2)
+    items = sweep.make_items(run, cfgs, ["wellformed"], light=light, heavy=heavy,
+                             strata=({"*": ["cycles3", "comp3plus1"]} if run.thorough else
+                                     {"ParCons(1,Copeland)": [("comp3plus1", 6)], "ParCons": [("cycles3", 3)],
+                                      "ExactPulp": [("cycles3", 3)], "ExactCplex(noopt)": [("cycles3", 3)]}),
+                             strata_heavy=({"ParCons(1,BioConsert)": [("comp3plus1", 4)]} if run.thorough else {}))
+    run.pmap("sweep.run_item", sweep.run_item, sweep.order_items(items), chunksize=1)
     run.extra["work_items"] = len(items)
     run.extra["stubs"] = sweep.install()
 
